@@ -175,7 +175,37 @@ impl Verify for Frame {
                 )?;
             }
         }
-        self.header().verify().map_err(|e| e.within("header"))
+        self.header().verify().map_err(|e| e.within("header"))?;
+        verify_true!(
+            "subframes.len",
+            self.subframe_count() == self.header().channel_assignment().channels(),
+            "must match to the channel specification in the header"
+        )?;
+        for (ch, sf) in self.subframes().iter().enumerate() {
+            let (block_size, bits_per_sample) = match sf {
+                SubFrame::Constant(c) => (c.block_size(), c.bits_per_sample()),
+                SubFrame::Verbatim(c) => (c.samples().len(), c.bits_per_sample()),
+                SubFrame::FixedLpc(c) => (c.residual().block_size(), c.bits_per_sample()),
+                SubFrame::Lpc(c) => (c.residual().block_size(), c.bits_per_sample()),
+            };
+            verify_true!(
+                "subframe.block_size",
+                block_size == self.header().block_size(),
+                "must be identical with the block size in the header"
+            )
+            .and_then(|()| {
+                let offset = self.header().channel_assignment().bits_per_sample_offset(ch);
+                verify_true!(
+                    "subframe.bits_per_sample",
+                    self.header()
+                        .bits_per_sample()
+                        .map_or(true, |b| b + offset == bits_per_sample),
+                    "must be consistent with the sample size in the header"
+                )
+            })
+            .map_err(|e| e.within(&format!("subframe[{ch}]")))?;
+        }
+        Ok(())
     }
 }
 
@@ -236,6 +266,11 @@ impl Verify for FixedLpc {
         for (t, v) in self.warm_up().iter().enumerate() {
             verify_sample_range!("warm_up[{t}]", *v, self.bits_per_sample())?;
         }
+        verify_true!(
+            "residual.warmup_length",
+            self.residual().warmup_length() == self.order(),
+            "must be identical with the predictor order"
+        )?;
         self.residual()
             .verify()
             .map_err(|err| err.within("residual"))
@@ -247,6 +282,12 @@ impl Verify for Lpc {
         self.parameters()
             .verify()
             .map_err(|err| err.within("parameters"))?;
+        verify_range!("order", self.order(), 1..)?;
+        verify_true!(
+            "residual.warmup_length",
+            self.residual().warmup_length() == self.order(),
+            "must be identical with the predictor order"
+        )?;
         verify_bps!("bits_per_sample", self.bits_per_sample())?;
         for (t, v) in self.warm_up().iter().enumerate() {
             verify_sample_range!("warm_up[{t}]", *v, self.bits_per_sample())?;
@@ -261,7 +302,16 @@ impl Verify for QuantizedParameters {
     fn verify(&self) -> Result<(), VerifyError> {
         verify_range!("order", self.order(), ..=MAX_LPC_ORDER)?;
         verify_range!("shift", self.shift(), MIN_LPC_SHIFT..=MAX_LPC_SHIFT)?;
-        verify_range!("precision", self.precision(), ..=MAX_LPC_PRECISION)?;
+        verify_range!("precision", self.precision(), 1..=MAX_LPC_PRECISION)?;
+        let limit = 1i32 << (self.precision() - 1);
+        for n in 0..self.order() {
+            let c = i32::from(self.coefficient(n).unwrap_or(0));
+            verify_true!(
+                "coefs",
+                -limit <= c && c < limit,
+                "must be representable with `precision` bits"
+            )?;
+        }
         Ok(())
     }
 }
@@ -285,6 +335,34 @@ impl Verify for Residual {
             self.remainders().len() == self.block_size(),
             "must have the same length as the block size"
         )?;
+        verify_range!(
+            "partition_order",
+            self.partition_order(),
+            ..=(crate::constant::rice::MAX_PARTITION_ORDER)
+        )?;
+        let partition_count = 1usize << self.partition_order();
+        verify_true!(
+            "rice_params.len",
+            self.rice_params().len() == partition_count,
+            "must be identical with the number of partitions"
+        )?;
+        verify_true!(
+            "block_size",
+            self.block_size() >= partition_count && self.block_size() % partition_count == 0,
+            "must be a positive multiple of the number of partitions"
+        )?;
+        verify_true!(
+            "warmup_length",
+            self.warmup_length() <= self.block_size() / partition_count,
+            "must fit in the first partition"
+        )?;
+        for p in self.rice_params() {
+            verify_range!(
+                "rice_params",
+                *p as usize,
+                ..=(crate::constant::rice::MAX_RICE_PARAMETER)
+            )?;
+        }
         for t in 0..self.warmup_length() {
             verify_true!(
                 "quotients[{t}]",
